@@ -506,8 +506,116 @@ func runC13(c *Ctx) {
 		}
 		c.Run("c13.entropy", cn, "-1", "0")
 		c.Run("c13.entropy", cn, "-1", "1")
+		c13LargeX(c, r, cn)
 	}
+	c13ShortScalars(c, r)
 	c13Caller(c, r)
+}
+
+// c13ShortScalars: ASN.1 signatures whose r or s has leading zero bytes. One zero byte happens every 256th signature, two
+// (where a hand-rolled minimal-length INTEGER encoder goes wrong if it strips only one) every 2^16th on curves whose order fills
+// its bytes and every 2^9th on P-521 (order of 521 bits in 66 bytes) — so P-521 is signed in bulk: every signature must be
+// accepted by crypto/ecdsa's strict parser and carry minimal INTEGERs (round 6).
+func c13ShortScalars(c *Ctx, r *Rng) {
+	cv := curves["P-521"]
+	N := cv.Params().N
+	sk, _ := ecdsa.CreateKey(cv, new(big.Int).Mod(new(big.Int).SetBytes(r.Bytes(66)), N).Bytes())
+	std := &stdecdsa.PublicKey{Curve: cv, X: sk.X, Y: sk.Y}
+	total := c.Pick(4096, 40000)
+	type miss struct{ digest, sig []byte }
+	short := make([]int, runtime.NumCPU())
+	found := parMap(runtime.NumCPU(), func(wk int) *miss {
+		rr := NewRng(c.Seed, fmt.Sprintf("c13-short-%d", wk))
+		for i := 0; i < total/runtime.NumCPU(); i++ {
+			digest := rr.Bytes(64)
+			sig, err := ecdsa.SignASN1(realRand, sk, digest)
+			if err != nil {
+				return &miss{digest, nil}
+			}
+			if len(sig) < 3+2+65+2+65 {
+				short[wk]++
+			}
+			if !stdecdsa.VerifyASN1(std, digest, sig) {
+				return &miss{digest, sig}
+			}
+		}
+		return nil
+	})
+	n := 0
+	for _, k := range short {
+		n += k
+	}
+	c.hist["P-521:der:bulk-signed"] += total
+	c.hist["P-521:der:bulk-short-scalar"] += n
+	for _, f := range found {
+		if f != nil {
+			c.Direct(false, "an ASN.1 signature made by the fork is rejected by crypto/ecdsa", map[string]any{"curve": "P-521", "pkx": bigHex(sk.X), "pky": bigHex(sk.Y), "digest": hx(f.digest), "sig": hx(f.sig)})
+		}
+	}
+	c.Direct(true, "bulk ASN.1 signing ran", nil)
+}
+
+// c13LargeX: valid signatures whose ephemeral point has an affine x-coordinate in [N, P) — r is then x − N, a small number,
+// and only the final reduction of x modulo N makes the comparison come out (round 6; honest signing reaches this with
+// probability about 2^-(bits/2)). The point R is chosen first (x = N + i on the curve), then s, then the public key
+// Q = r⁻¹(sR − eG); the digest and s vary.
+func c13LargeX(c *Ctx, r *Rng, cn string) {
+	cv := curves[cn]
+	N, P, B := cv.Params().N, cv.Params().P, cv.Params().B
+	found := 0
+	for i := int64(1); i < 4000 && found < c.Pick(2, 12); i++ {
+		x := new(big.Int).Add(N, big.NewInt(i))
+		if x.Cmp(P) >= 0 {
+			break
+		}
+		// y^2 = x^3 - 3x + b
+		y2 := new(big.Int).Exp(x, big.NewInt(3), P)
+		y2.Sub(y2, new(big.Int).Mul(big.NewInt(3), x)).Add(y2, B).Mod(y2, P)
+		y := new(big.Int).ModSqrt(y2, P)
+		if y == nil {
+			continue
+		}
+		found++
+		rr := big.NewInt(i)
+		digest := r.Bytes([]int{20, 32, 48, 64, 66, 100}[found%6])
+		// e: the leftmost bits of the digest, as many as the order has
+		ob := N.BitLen()
+		d := digest
+		if len(d) > (ob+7)/8 {
+			d = d[:(ob+7)/8]
+		}
+		e := new(big.Int).SetBytes(d)
+		if ex := len(d)*8 - ob; ex > 0 {
+			e.Rsh(e, uint(ex))
+		}
+		ss := new(big.Int).Mod(new(big.Int).SetBytes(r.Bytes(80)), new(big.Int).Sub(N, big.NewInt(1)))
+		ss.Add(ss, big.NewInt(1))
+		sx, sy := cv.ScalarMult(x, y, ss.Bytes())
+		ex, ey := cv.ScalarBaseMult(new(big.Int).Mod(e, N).Bytes())
+		ey = new(big.Int).Sub(P, ey)
+		if e.Sign() == 0 || new(big.Int).Mod(e, N).Sign() == 0 {
+			continue
+		}
+		tx, ty := cv.Add(sx, sy, ex, ey)
+		rinv := new(big.Int).ModInverse(rr, N)
+		qx, qy := cv.ScalarMult(tx, ty, rinv.Bytes())
+		if !cv.IsOnCurve(qx, qy) {
+			continue
+		}
+		std := &stdecdsa.PublicKey{Curve: cv, X: qx, Y: qy}
+		for _, v := range []struct {
+			kind string
+			r, s *big.Int
+		}{{"large-x", rr, ss}, {"large-x-twin", rr, new(big.Int).Sub(N, ss)}, {"large-x-unreduced-r", x, ss}, {"large-x-other-s", rr, new(big.Int).Add(ss, big.NewInt(1))}} {
+			out := c.Run("c13.verify", cn, bigHex(qx), bigHex(qy), hx(digest), bigHex(v.r), bigHex(v.s))
+			c.Count(cn + ":" + v.kind)
+			want := stdecdsa.Verify(std, digest, v.r, v.s)
+			c.Direct(out == b2s(want), "verdict differs from crypto/ecdsa", map[string]any{"curve": cn, "kind": v.kind, "pkx": bigHex(qx), "pky": bigHex(qy), "digest": hx(digest), "r": bigHex(v.r), "s": bigHex(v.s), "fork": out, "std": want})
+			if v.kind == "large-x" {
+				c.Direct(want, "harness: the constructed large-x signature is not valid under crypto/ecdsa", map[string]any{"curve": cn, "i": i})
+			}
+		}
+	}
 }
 
 // callFailReader stands in for crypto/rand.Reader: the n-th read of more than one byte, and every read after it, fails
@@ -798,6 +906,38 @@ func runC14(c *Ctx) {
 	c.Run("c14.genkey", "-1", "0")
 }
 
+// scalarInverses: ModInverse on scalars whose inverse is short (leading zero bytes), long, 1, L-1 — against math/big (round 6:
+// a result written back without its leading zero bytes).
+func scalarInverses(c *Ctx, r *Rng, L *big.Int) {
+	le32 := func(x *big.Int) []byte {
+		b := x.FillBytes(make([]byte, 32))
+		for i, j := 0, 31; i < j; i, j = i+1, j-1 {
+			b[i], b[j] = b[j], b[i]
+		}
+		return b
+	}
+	var ts []*big.Int
+	for _, k := range []uint{0, 1, 7, 8, 15, 16, 64, 128, 200, 232, 239, 240, 241, 247, 248, 249, 251} {
+		t := new(big.Int).Lsh(big.NewInt(1), k)
+		ts = append(ts, t, new(big.Int).Sub(t, big.NewInt(1)), new(big.Int).Add(t, big.NewInt(int64(1+r.IntN(200)))))
+	}
+	for i := 0; i < c.Pick(60, 2000); i++ {
+		t := new(big.Int).SetBytes(r.Bytes(1 + r.IntN(32)))
+		ts = append(ts, t.Mod(t, L))
+	}
+	ts = append(ts, new(big.Int).Sub(L, big.NewInt(1)), new(big.Int).Sub(L, big.NewInt(2)))
+	for _, t := range ts {
+		if t.Sign() == 0 || t.Cmp(L) >= 0 {
+			continue
+		}
+		a := new(big.Int).ModInverse(t, L)
+		// the receiver's old contents must not show through: the hook inverts in place
+		got := ed25519.VerifScalarInverse(le32(a))
+		c.Count("scalar:inverse")
+		c.Direct(bytes.Equal(got, le32(t)), "scalar inverse modulo L differs from math/big", map[string]any{"a": hx(le32(a)), "impl": hx(got), "expected": hx(le32(t))})
+	}
+}
+
 // c14Scalars: the limb arithmetic behind key derivation, signing and the canonical-S check, against math/big —
 // a sample through the model, and a bulk random search (every core) for the rare carry patterns a wrong carry chain
 // shows on (rates around 2^-25 are realistic for such bugs).
@@ -848,6 +988,29 @@ func c14Scalars(c *Ctx, r *Rng, L *big.Int) {
 			}
 		}
 	}
+	// multiples of L close to 2^512 minus a little: the partially reduced value then sits just under a multiple of L with every
+	// high limb in play (round 6: a fold of the top carry that is wrong only there)
+	{
+		top := new(big.Int).Div(new(big.Int).Sub(new(big.Int).Lsh(big.NewInt(1), 512), big.NewInt(1)), L)
+		for j := 0; j < c.Pick(120, 2000); j++ {
+			m := new(big.Int).Sub(top, new(big.Int).Rsh(new(big.Int).SetBytes(r.Bytes(33)), uint(8+r.IntN(250))))
+			if j%3 == 0 {
+				m = new(big.Int).Lsh(big.NewInt(1), uint(200+r.IntN(60)))
+				m.Add(m, big.NewInt(int64(r.IntN(5))))
+			}
+			for _, d := range []int64{1, 2, 3} {
+				x := new(big.Int).Sub(new(big.Int).Mul(m, L), big.NewInt(d))
+				if x.Sign() < 0 || x.BitLen() > 512 {
+					continue
+				}
+				w := x.FillBytes(make([]byte, 64))
+				for i, j := 0, 63; i < j; i, j = i+1, j-1 {
+					w[i], w[j] = w[j], w[i]
+				}
+				wides = append(wides, w)
+			}
+		}
+	}
 	wides = append(wides, bytes.Repeat([]byte{0xff}, 64), make([]byte, 64))
 	for _, w := range wides {
 		out := c.Run("c14.screduce", hx(w))
@@ -876,8 +1039,9 @@ func c14Scalars(c *Ctx, r *Rng, L *big.Int) {
 			c.Direct(out == b2s(x.Cmp(L) < 0), "canonical-scalar verdict differs from `value < L`", map[string]any{"x": x.Text(16), "impl": out})
 		}
 	}
+	scalarInverses(c, r, L)
 	// bulk search (direct oracle only): independent generators per worker, first mismatch reported with its input
-	total := c.Pick(1<<25, 1<<29)
+	total := c.Pick(1<<27, 1<<30)
 	workers := runtime.NumCPU()
 	type miss struct{ w, got, want []byte }
 	found := parMap(workers, func(wk int) *miss {
@@ -929,9 +1093,34 @@ func c14Scalars(c *Ctx, r *Rng, L *big.Int) {
 func runC15(c *Ctx) {
 	r := NewRng(c.Seed, "c15")
 	n := c.Pick(40, 1500)
+	L, _ := new(big.Int).SetString("7237005577332262213973186563042994240857116359379907606001950938285454250989", 10)
+	// blinds whose scalar has a short inverse (two or more leading zero bytes: one blind in 2^12..2^16), found by search: unblinding
+	// multiplies by that inverse (round 6). They take the place of the first random blinds below.
+	var shortInv [][]byte
+	{
+		rs := NewRng(c.Seed, "c15-short-inverse")
+		base := rs.Bytes(32)
+		for k := 0; k < 1<<18 && len(shortInv) < c.Pick(4, 24); k++ {
+			binary.LittleEndian.PutUint32(base[:4], uint32(k))
+			h := sha512.Sum512(append(append([]byte{}, base...), 0))
+			x := new(big.Int)
+			for j := 31; j >= 0; j-- {
+				x.Lsh(x, 8).Or(x, big.NewInt(int64(h[j])))
+			}
+			x.Mod(x, L)
+			if x.Sign() != 0 && new(big.Int).ModInverse(x, L).BitLen() <= 240 {
+				shortInv = append(shortInv, append([]byte{}, base...))
+			}
+		}
+		c.hist["blind:short-inverse-found"] = len(shortInv)
+	}
+	scalarInverses(c, r, L)
 	for i := 0; i < n; i++ {
 		seed, blind, msg := r.Bytes(32), r.Bytes(32), r.Bytes([]int{0, 1, 32, 200}[i%4])
 		ctx := r.Bytes([]int{0, 1, 16, 100, 31, 32, 33, 64, 65, 95, 96, 128, 300}[i%13])
+		if i < len(shortInv) {
+			blind, ctx = shortInv[i], nil
+		}
 		sk := ed25519.NewKeyFromSeed(seed)
 		pk := []byte(sk[32:])
 		in := map[string]any{"seed": hx(seed), "blind": hx(blind), "ctx": hx(ctx), "msg": hx(msg)}
